@@ -151,3 +151,73 @@ def narrowing_rule(F, R, rule, scope_text, in_scope, floor, audited=None):
                             "truncated" % (fn.name, sty, dty, "[%s, %s]" % (lo if lo is not None else s[0], hi if hi is not None else s[1]), d[0], d[1]), fn.loc(st))
     R.floor(rule, "integer casts examined", n, floor)
     return n
+
+
+# ------------------------------------------------------------------ recursion inventory (C09, C10, C18)
+
+def recursion_rule(F, R, rule, what, seen_ids, crates, table, cg=None, name_filter=None):
+    """Every recursion cycle (over statically resolved call edges) among the reachable functions is listed in the table with the
+    reason its depth is bounded independently of the input length, or it is a finding (stack overflow is an abort, not an error)."""
+    R.rule(rule, "no recursion whose depth grows with the length of the input (%s): every cycle of statically resolved calls among the reachable "
+                 "functions is audited as bounded (by a documented limit or by a quantity that is itself bounded) or reported — a stack overflow "
+                 "aborts the process without any structured error" % what)
+    edges = {}
+    if cg is not None:
+        # whole call graph (class-hierarchy and function-pointer edges included): recursion through trait objects / generics
+        ok_ids = {fid for fid in seen_ids if fid in F.fns and F.fns[fid].crate in crates and (name_filter is None or name_filter(F.fns[fid]))}
+        for s in ok_ids:
+            ds = {d for d in cg.edges.get(s, ()) if d in ok_ids and cg.why.get((s, d)) != "bridge"}
+            if ds:
+                edges[s] = ds
+    else:
+      for fid in seen_ids:
+        f = F.fns.get(fid)
+        if f is None or f.crate not in crates:
+            continue
+        for bi, t in f.calls():
+            c = t.get("callee") or {}
+            g = F.fns.get(c.get("rid")) or F.fns.get(c.get("id"))
+            if g is not None and g.crate in crates and (not c.get("trait") or c.get("rid")):
+                edges.setdefault(f.id, set()).add(g.id)
+    import sys
+    sys.setrecursionlimit(max(sys.getrecursionlimit(), 20000))
+    idx, low, st, on, comps, n = {}, {}, [], set(), [], [0]
+
+    def sc(v):
+        idx[v] = low[v] = n[0]
+        n[0] += 1
+        st.append(v)
+        on.add(v)
+        for w in sorted(edges.get(v, ())):
+            if w not in idx:
+                sc(w)
+                low[v] = min(low[v], low[w])
+            elif w in on:
+                low[v] = min(low[v], idx[w])
+        if low[v] == idx[v]:
+            comp = []
+            while True:
+                w = st.pop()
+                on.discard(w)
+                comp.append(w)
+                if w == v:
+                    break
+            if len(comp) > 1 or v in edges.get(v, ()):
+                comps.append(comp)
+    for v in sorted(edges):
+        if v not in idx:
+            sc(v)
+    k = 0
+    for comp in sorted(comps, key=lambda c: sorted(strip_generics(F.fns[x].name) for x in c)):
+        names = sorted({strip_generics(F.fns[x].name) for x in comp})
+        key = " + ".join(names) if len(names) <= 3 else "%s (+%d more)" % (names[0], len(names) - 1)
+        f0 = F.fns[sorted(comp, key=lambda x: strip_generics(F.fns[x].name))[0]]
+        loc = "%s:%d" % (f0.file, f0.line)
+        k += 1
+        ent = table.get(key)
+        if ent is not None and ent.get("why"):
+            R.ok(rule, "cycle:" + key, "bounded: " + ent["why"], loc, how="audited")
+        else:
+            R.violation(rule, "cycle:" + key, "recursion cycle %s is reachable and not audited as bounded: if its depth follows the input length the "
+                        "process aborts with a stack overflow" % key, loc)
+    return k
